@@ -690,6 +690,7 @@ Definition exchange_targets_unchecked (t : table) (rels : list rel) : MW (list r
 
 (** getExchangeTargets: checked variant; also returns the mask of changed relation components. *)
 Definition exchange_targets (t : table) (rels : list rel) : MW (option (list rel * mask)) :=
+  guard (rels_distinct rels) ERelUnspec ;;;      (* checkRelationsDistinct *)
   r <- (fix go (rels : list rel) (tg : list ent) (cm : mask) (changed : bool) : MW (list ent * mask * bool) :=
           match rels with
           | [] => ret (tg, cm, changed)
@@ -697,6 +698,8 @@ Definition exchange_targets (t : table) (rels : list rel) : MW (option (list rel
               match tbl_colidx t c with
               | None => fail EMissingComp
               | Some i =>
+                  if negb (ck_rel (nth i (t_kinds t) (Build_ckind false false true))) then fail ENotRelation
+                  else
                   match nth_error tg i with
                   | None => fail EIndex
                   | Some cur => if ent_eqb x cur then go rest tg cm changed
